@@ -192,6 +192,39 @@ func prepare(repo, verif string) (*load.Program, error) {
 			isNewStruct := func(pkgPath, name string) bool {
 				return strings.HasPrefix(pkgPath, load.RootPkg) && !refStruct[pkgPath+"."+name]
 			}
+			for svRound := 0; svRound < 3; svRound++ {
+				sv, ns := load.ExplodeStructValues(prog.Pkgs, isNewStruct, read)
+				if len(sv) == 0 {
+					break
+				}
+				saved := map[string][]byte{}
+				for k, v := range sv {
+					if old, ok := overlay[k]; ok {
+						saved[k] = old
+					}
+					overlay[k] = v
+				}
+				if next, lerr := load.LoadOverlay(repo, overlay); lerr == nil {
+					next.RawID = kit.RawFuncID
+					prog = next
+					notes = append(notes, ns...)
+					if d := os.Getenv("VCHECK_DUMP_OVERLAY"); d != "" {
+						for k, v := range overlay {
+							os.WriteFile(filepath.Join(d, filepath.Base(k)), v, 0o644)
+						}
+					}
+				} else {
+					notes = append(notes, fmt.Sprintf("field-by-field reading of struct values abandoned (%v)", lerr))
+					for k := range sv {
+						if old, ok := saved[k]; ok {
+							overlay[k] = old
+						} else {
+							delete(overlay, k)
+						}
+					}
+					break
+				}
+			}
 			if sr, ns := load.ScalarReplace(prog.Pkgs, isNewStruct, read); len(sr) > 0 {
 				saved := map[string][]byte{}
 				for k, v := range sr {
@@ -255,6 +288,12 @@ func prepare(repo, verif string) (*load.Program, error) {
 		}
 		if json.Unmarshal(b, &lc) == nil {
 			prog.RefLockCover = lc.Cover
+		}
+	}
+	if b, rerr := os.ReadFile(filepath.Join(filepath.Dir(anchorsPath), "retfields.json")); rerr == nil {
+		var rf map[string][]string
+		if json.Unmarshal(b, &rf) == nil {
+			prog.RefRetFields = rf
 		}
 	}
 	prog.RefFields = map[string]map[string]bool{}
